@@ -348,7 +348,13 @@ SYNTH_RULE = ("A: every pair of operand schemas built from a 12-entry pool (base
               "identifier hook; the contract is evaluated on the implementation's own result (C09 invariants on the result, translations "
               "total and into the result, equated pairs share an image, every image's definition / text is the operand's with every "
               "mention rewritten, full correctness and typifications for correct operands with like-with-like tables, refusal changes "
-              "nothing, operands untouched); the model's exact result is compared at drift level.  non-trivial = >= 3 constituents+pairs. ")
+              "nothing, operands untouched); the model's exact result is compared at drift level.  non-trivial = >= 3 constituents+pairs.  "
+              "B: long random editing histories recorded from a real RSForm (Trace_Schema.tla with Trace_Eq.cfg): Equate events on the live schema "
+              "(tables drawn until one is admissible, every fourth one taken as drawn; options keep / take / new term; tracked constituents) change the "
+              "specification state through SchemaOps!EquateT, verdict and translation are compared (PropEquate) and the full report of the "
+              "schema afterwards with from-scratch Analysis (PropSchema); Synth events run BinarySynthes on the live schema and an earlier "
+              "copy of it (heavily overlapping identifiers, up to 18 constituents in the merge) and compare verdict, result (order, identifiers, aliases, kinds, "
+              "statuses, typifications) and both translations with SchemaOps!Synth (PropSynth). ")
 
 
 def plan_C12(ctx):
@@ -363,6 +369,10 @@ def plan_C12(ctx):
         ctx.constants[cfg] = open(os.path.join(vcore.TLA, cfg)).read().split("SPECIFICATION")[0].split()
         ctx.replay("Gen_Synth.tla", cfg, h, [], tag=cfg[:-4], timeout=3400, xss="64m", xmx="16g")
     ctx.exhaustive = True
+    # B: equations on the live schema of long random editing histories, syntheses of the live schema with an earlier copy of itself
+    ntr = 40 if ctx.quick else 400
+    ctx.constants["B"] = "%d recorded histories x 60 calls, <= 9 constituents, ~8%% of the calls are Equate / Synth / Snapshot" % ntr
+    trace_stage(ctx, hbin(b, "h_schema"), ["--record", str(ntr), "--steps", "60", "--cst", "9", "--equate", "1"], "Trace_Schema.tla", "Trace_Eq.cfg", n_traces=ntr)
 
 
 OSS_RULE = ("A: every history of <= MaxLen calls on an operation schema and its environment (InsertBase, InsertOperation incl. refused ones, "
@@ -475,7 +485,7 @@ HARNESS_OF = {"C14": "h_graph", "C20": "h_strings", "C16": "h_sdcompact", "C15":
 TRACE_SPEC_OF = {"C14": ("Trace_C14.tla", "Trace_C14.cfg"), "C20": ("Trace_C20.tla", "Trace_C20.cfg"),
                  "C16": ("Trace_C16.tla", "Trace_C16.cfg"), "C15": ("Trace_C15.tla", "Trace_C15.cfg"),
                  "C17": ("Trace_C17.tla", "Trace_C17.cfg"), "C04": ("Trace_C04.tla", "Trace_C04.cfg"),
-                 "C13": ("Trace_Schema.tla", "Trace_Ops.cfg"), "C19": ("Trace_OSS.tla", "Trace_OSS.cfg"), "C11": ("Trace_Model.tla", "Trace_Model.cfg"), "C07": ("Trace_Schema.tla", "Trace_Schema.cfg"), "C09": ("Trace_Schema.tla", "Trace_Schema.cfg")}
+                 "C13": ("Trace_Schema.tla", "Trace_Ops.cfg"), "C12": ("Trace_Schema.tla", "Trace_Eq.cfg"), "C19": ("Trace_OSS.tla", "Trace_OSS.cfg"), "C11": ("Trace_Model.tla", "Trace_Model.cfg"), "C07": ("Trace_Schema.tla", "Trace_Schema.cfg"), "C09": ("Trace_Schema.tla", "Trace_Schema.cfg")}
 
 
 def replay(pid, path):
